@@ -83,11 +83,15 @@ def generate(gen, tier):
     # sentinels and plain-dataclass bases: written as source text, oracle only
     for _ in range(50 if tier == 'quick' else 1500):
         cases.append({'lines': [], 'o': {'kind': 'dcx', 'seed': rng.randrange(10**6)}})
+    # field(metadata=...) with user metadata: one mapping object shared by several fields, fresh dicts, read-only
+    # mappings, None - the pytree_node flag of a field is the one it was declared with
+    for _ in range(40 if tier == 'quick' else 1200):
+        cases.append({'lines': [], 'o': {'kind': 'dcmeta', 'seed': rng.randrange(10**6)}})
     return cases
 
 
 def nontrivial(case):
-    if case['o']['kind'] in ('partial', 'dcx'):
+    if case['o']['kind'] in ('partial', 'dcx', 'dcmeta'):
         return True
     return len(parse(case['o']['req'])) >= 7
 
@@ -190,9 +194,58 @@ def _dcx(seed):
     return fails
 
 
+def _dcmeta(seed):
+    import dataclasses as std
+    import random
+    import types
+    import optree
+    import optree.dataclasses as odc
+    rng = random.Random(seed)
+    ns = f'dcmeta-{seed}'
+    n = rng.choice([2, 3, 4, 5])
+    names = [f'm{i}' for i in range(n)]
+    shared = {'doc': 'shared', 'unit': 3}
+    decl, body, given = {}, {'__annotations__': {}}, {}
+    for i, name in enumerate(names):
+        flag = rng.choice([None, True, False])
+        how = rng.choice(['shared', 'shared', 'fresh', 'none', 'proxy', 'shared-proxy'])
+        md = {'shared': shared, 'fresh': {'doc': name}, 'none': None, 'proxy': types.MappingProxyType({'doc': name}),
+              'shared-proxy': types.MappingProxyType(shared)}[how]
+        kw = {'default': i, 'metadata': md}
+        if flag is not None:
+            kw['pytree_node'] = flag
+        body['__annotations__'][name] = int
+        body[name] = odc.field(**kw)
+        decl[name] = True if flag is None else flag
+        given[name] = None if md is None else dict(md)
+    cls = odc.dataclass(type('Meta', (), body), namespace=ns)
+    fails = []
+    obj = cls(**{name: [10 * i, (i,)] if decl[name] else 7 * i for i, name in enumerate(names)})
+    want = [getattr(obj, name) for name in names if decl[name]]
+    leaves_of = lambda xs: [y for x in xs for y in optree.tree_leaves(x)]      # noqa: E731
+    got = optree.tree_leaves(obj, namespace=ns)
+    if got != leaves_of(want):
+        fails.append({'key': 'dcmeta-children', 'what': f'declared pytree_node flags {decl} but the leaves are {got!r}'})
+    mapped = optree.tree_map(lambda x: x + 1, obj, namespace=ns)
+    for i, name in enumerate(names):
+        a, b = getattr(obj, name), getattr(mapped, name)
+        if decl[name] and b == a:
+            fails.append({'key': 'dcmeta-map', 'what': f'field {name} is declared a pytree node but tree_map did not reach it'})
+        if not decl[name] and b != a:
+            fails.append({'key': 'dcmeta-map', 'what': f'field {name} is declared metadata but tree_map changed it'})
+    for f in std.fields(cls):
+        if f.metadata.get('pytree_node') != decl[f.name]:
+            fails.append({'key': 'dcmeta-flag', 'what': f'field {f.name}: metadata[pytree_node] = {f.metadata.get("pytree_node")!r}, declared {decl[f.name]}'})
+        if given[f.name] is not None and any(f.metadata.get(k) != v for k, v in given[f.name].items() if k != 'pytree_node'):
+            fails.append({'key': 'dcmeta-user-metadata', 'what': f'field {f.name}: user metadata lost'})
+    return fails
+
+
 def oracle(impl, o):
     if o.get('kind') == 'dcx':
         return _dcx(o['seed'])
+    if o.get('kind') == 'dcmeta':
+        return _dcmeta(o['seed'])
     import dataclasses as std
     import functools
     import inspect
